@@ -48,6 +48,11 @@ type emitter struct {
 	// a ForRange node.
 	inForRange bool
 
+	// rangeInBreakable is true if emitting the body of a ForRange statement
+	// that is nested in a "breakable" statement: a break with a label still
+	// refers to that statement.
+	rangeInBreakable bool
+
 	// breakLabel, if not nil, is the label to which pre-stated "breaks" must
 	// jump.
 	breakLabel *label
